@@ -3666,8 +3666,12 @@ handle_response(coap_context_t *context, coap_session_t *session,
       }
       session->last_con_mid = rcvd->mid;
     } else if (rcvd->type == COAP_MESSAGE_ACK) {
-      if (rcvd->mid == session->last_ack_mid) {
-        /* Duplicate response */
+      if (rcvd->mid == session->last_ack_mid || !sent) {
+        /*
+         * Duplicate response, or a piggybacked response that does not
+         * acknowledge any outstanding message (RFC 7252 4.2) - an older
+         * duplicate that last_ack_mid no longer remembers.
+         */
         return;
       }
       session->last_ack_mid = rcvd->mid;
